@@ -235,6 +235,25 @@ Section WithCodec.
     let h := f_Header f in let b := f_Body f in
     hdr_bytes (with_body_length h (zlen (body_bytes h b mb))) ++ body_bytes h b mb.
 
+  (* DecodeBody on an uncompressed body followed by anything: the reader limited to the declared length sees exactly the body *)
+  Lemma decode_body_plain_app comp h b mb rest :
+    supported (h_Version h) -> h_IsResponse h = msg_is_response (bd_Message b) -> h_OpCode h = msg_opcode (bd_Message b) ->
+    body_ok h b -> mc_encode mc (h_Version h) (bd_Message b) = Ok mb ->
+    has (h_Flags h) HeaderFlagCompressed = false ->
+    let n := zlen (body_bytes h b mb) in
+    decode_body mc comp (with_body_length h n) (body_bytes h b mb ++ rest) = DOk (norm_body h b) rest.
+  Proof.
+    intros Hv Hr Hop Hb Hmb Hnc n. unfold decode_body. cbn [with_body_length h_Flags h_BodyLength]. rewrite Hnc.
+    pose proof (zlen_nonneg (body_bytes h b mb)) as Hn0. fold n in Hn0. destruct (Z.ltb_spec n 0); [lia|].
+    rewrite zlen_app. fold n. pose proof (zlen_nonneg rest). rewrite Z.min_l by lia.
+    destruct (Z.leb_spec n (n + zlen rest)); [|lia].
+    assert (En : Z.to_nat n = length (body_bytes h b mb)) by (unfold n, zlen; apply Nat2Z.id).
+    rewrite En, firstn_app_exact, skipn_app_exact.
+    rewrite <- (app_nil_r (body_bytes h b mb)).
+    rewrite <- (body_bytes_wbl h b n mb).
+    rewrite (decode_body_parts_app (with_body_length h n) b mb []); [reflexivity|exact Hv|exact Hr|exact Hop| apply body_ok_wbl; exact Hb|exact Hmb].
+  Qed.
+
   (* C01 / C03, uncompressed: the encoder emits header ++ body with the body length declared in the header,
      and the decoder returns the (normalised) frame and exactly the remaining input *)
   Theorem frame_roundtrip_plain comp f mb :
@@ -259,9 +278,7 @@ Section WithCodec.
       rewrite (encode_body_uncompressed_ok (with_body_length h n) b mb); [reflexivity| apply body_ok_wbl; exact Hb | exact Hmb].
     - intro rest. unfold decode_frame, encoded_plain. fold h b n. rewrite <- app_assoc.
       unfold bind at 1. rewrite (decode_header_app _ _ Hh).
-      unfold bind at 1. unfold decode_body. cbn [with_body_length h_Flags]. rewrite Hnc.
-      rewrite <- (body_bytes_wbl h b n mb).
-      rewrite (decode_body_parts_app (with_body_length h n) b mb rest); [reflexivity|exact Hv|exact Hr|exact Hop| apply body_ok_wbl; exact Hb|exact Hmb].
+      unfold bind at 1. unfold n. rewrite (decode_body_plain_app comp h b mb rest Hv Hr Hop Hb Hmb Hnc). reflexivity.
   Qed.
 
   (* a lossless compressor (the contract proved/assumed for C08) *)
